@@ -275,7 +275,11 @@ impl StdInWorker for ScanStdin {
     processor: &P::Processor,
   ) -> Result<Vec<P::Processed>> {
     use ast_grep_core::Language;
-    let lang = self.rules[0].language;
+    // every rule may have been turned off
+    let Some(first) = self.rules.first() else {
+      return Ok(vec![]);
+    };
+    let lang = first.language;
     let combined = CombinedScan::new(self.rules.iter().collect());
     let grep = lang.ast_grep(src);
     let path = Path::new("STDIN");
